@@ -26,6 +26,13 @@ type compilationScope struct {
 	outerLoopIndex int
 }
 
+// maxOperand1 and maxOperand2 are the largest values that fit the one- and
+// two-byte instruction operands.
+const (
+	maxOperand1 = 1<<8 - 1
+	maxOperand2 = 1<<16 - 1
+)
+
 // loop represents a loop construct that the compiler uses to track the current
 // loop.
 type loop struct {
@@ -124,6 +131,11 @@ func (c *Compiler) Compile(node parser.Node) error {
 			if err := c.Compile(stmt); err != nil {
 				return err
 			}
+		}
+		// constant indexes are two-byte operands
+		if n := c.numConstants(); n > maxOperand2+1 {
+			return c.errorf(node, "too many constants: %d (limit %d)",
+				n, maxOperand2+1)
 		}
 	case *parser.ExprStmt:
 		if err := c.Compile(node.Expr); err != nil {
@@ -412,6 +424,16 @@ func (c *Compiler) Compile(node parser.Node) error {
 		numLocals := c.symbolTable.MaxSymbols()
 		instructions, sourceMap := c.leaveScope()
 
+		// local and free variable indexes are one-byte operands
+		if numLocals > maxOperand1+1 {
+			return c.errorf(node, "too many local variables: %d (limit %d)",
+				numLocals, maxOperand1+1)
+		}
+		if len(freeSymbols) > maxOperand1 {
+			return c.errorf(node, "too many captured variables: %d (limit %d)",
+				len(freeSymbols), maxOperand1)
+		}
+
 		for _, s := range freeSymbols {
 			switch s.Scope {
 			case ScopeLocal:
@@ -504,6 +526,10 @@ func (c *Compiler) Compile(node parser.Node) error {
 		ellipsis := 0
 		if node.Ellipsis.IsValid() {
 			ellipsis = 1
+		}
+		if len(node.Args) > maxOperand1 {
+			return c.errorf(node, "too many arguments in call: %d (limit %d)",
+				len(node.Args), maxOperand1)
 		}
 		c.emit(node, parser.OpCall, len(node.Args), ellipsis)
 	case *parser.ImportExpr:
@@ -681,6 +707,10 @@ func (c *Compiler) compileAssign(
 	if op == token.Define && numSel > 0 {
 		// using selector on new variable does not make sense
 		return c.errorf(node, "operator ':=' not allowed with selector")
+	}
+	if numSel > maxOperand1 {
+		return c.errorf(node, "too many selectors in assignment: %d (limit %d)",
+			numSel, maxOperand1)
 	}
 
 	_, isFunc := rhs[0].(*parser.FuncLit)
@@ -1033,6 +1063,10 @@ func (c *Compiler) compileModule(
 	moduleCompiler.optimizeFunc(node)
 	compiledFunc := moduleCompiler.Bytecode().MainFunction
 	compiledFunc.NumLocals = symbolTable.MaxSymbols()
+	if compiledFunc.NumLocals > maxOperand1+1 {
+		return nil, c.errorf(node, "too many local variables in module: %d (limit %d)",
+			compiledFunc.NumLocals, maxOperand1+1)
+	}
 	c.storeCompiledModule(modulePath, compiledFunc)
 	return compiledFunc, nil
 }
@@ -1174,6 +1208,14 @@ func (c *Compiler) addConstant(o Object) int {
 		c.printTrace(fmt.Sprintf("CONST %04d %s", len(c.constants)-1, o))
 	}
 	return len(c.constants) - 1
+}
+
+func (c *Compiler) numConstants() int {
+	// module compilers use their parent's constants array
+	for c.parent != nil {
+		c = c.parent
+	}
+	return len(c.constants)
 }
 
 func (c *Compiler) addInstruction(b []byte) int {
